@@ -234,7 +234,10 @@ def check_def(ctx, route, tdef, marks, customs, tree, expr_text, name_cls,
         (route, tuple(sorted((o, m) for o, m in marks.items())),
          tuple(sorted(customs.items())), expr_text),
         nontrivial=nontrivial)
-    if ctx.shard == 0 or len(ctx.samples) < 2:
+    kind = 0 if (tree is None and route == 'direct') else (
+        1 if tree is not None else 2)
+    if (kind == ctx.shard % 3 or ctx.nshards < 3) and customs and (
+            len(ctx.samples) < 2):
         ctx.sample({**describe, 'subsets_checked': 1 << n,
                     'examples': samples})
     return seen
